@@ -305,7 +305,7 @@ class C20(vlib.Driver):
                 if r2.random() < 0.25:
                     m0 = c["max_steps"]
                     c["budgets"] = [m0, m0 + r2.choice([1, tot, 2 * tot + 1]), m0 + r2.choice([0, 1])]
-                if c.get("evo") and r2.random() < 0.3:
+                if c.get("evo") and r2.random() < 0.3 and c.get("sum_scores") is not False:   # (pre-set histories are scalar fitness values)
                     perm = list(range(c["pop"])); r2.shuffle(perm)
                     c["perm"] = perm
                     c["preset"] = {"steps": r2.choice([0, 3, 5]), "nfit": 2, "best": r2.randrange(c["pop"])}
